@@ -14,12 +14,24 @@ META = dict(
           "duplicate, out of bounds) x isolated_as_missing / impute_missing_data x user allele tuples x left/right x "
           "copy x missing_data_character x reference_sequence. Every decoded allele is compared through its string with "
           "the nearest-mutation walk on {child: parent} at the site position. A case is distinct by the sha1 of its "
-          "row tuples and non-trivial when it has at least one site and one mutation."),
+          "row tuples and non-trivial when it has at least one site and one mutation. "
+          "Audit round: the family of a case is a scrambled function of its number with fixed shares (walk 48 %, "
+          "align 25.5 %, edge 23 %, msprime 2 %, big 1.5 %). `edge` puts sites at 0, exactly L/2, on and just before "
+          "breakpoints and at the last position, forces isolated samples carrying 0/1/2 mutations, sites whose isolated "
+          "samples are all rescued by mutations, and 4/5 .. 64/65 distinct states at one site; `big` has stars / root "
+          "sets / fans with 255-700 children, combs and unary chains of depth 255-1100 (thorough: 3000 deep, 65537 "
+          "leaves), 256/512-leaf binary trees, 17-300 states at a site and alleles of 255-70000 characters, decoded "
+          "once through the sample-list path (default samples) and once through the traversal path (every node). "
+          "Added entry points and forms: a fresh Variant per site (first decode seeks from the null tree), positional "
+          "constructor, decode(site_id=)/numpy ids, samples as range / eight numpy dtypes / strided / read-only views, "
+          "numpy scalar and -0.0 interval bounds, ids around 2^31 / 2^32 (must raise), write_fasta and write_nexus to "
+          "path / pathlib / open file / StringIO, the nexus DATA block, to_macs, pickled / rebuilt / reloaded tree "
+          "sequences."),
     REQUIRED=["variants:variant-checked", "decode:variant-checked", "copy:variant-checked", "decode:frozen-copy",
               "genotype_matrix:rows", "haplotypes:compared", "alignments:compared", "as_fasta:compared",
               "cross:matrix-vs-variants", "variants:counts", "variants:states", "variants:frequencies",
               "variants:error-predicted", "decode:error-predicted", "haplotypes:error-predicted",
-              "alignments:error-predicted"],
+              "alignments:error-predicted", "fresh:variant-checked", "nexus:compared", "big:cases"],
     ASSUMPTIONS=ASSUME_COMMON + [
         "mutation parents in the generated tables are the ones computed by the reference model "
         "(the property quantifies over correctly parented mutations only)",
